@@ -545,7 +545,7 @@ impl DefaultFunction {
                     if let (Constant::Integer(i), Constant::ProtoList(Type::Data, _)) =
                         (c.as_ref(), c2.as_ref())
                     {
-                        i >= &0.into()
+                        u64::try_from(i).is_ok()
                     } else {
                         false
                     }
